@@ -17,6 +17,9 @@ pub mod c13;
 pub mod c14;
 pub mod c15;
 pub mod c16;
+pub mod c17;
+pub mod c18;
+pub mod c19;
 pub mod c20;
 
 pub struct PropDef {
@@ -45,6 +48,9 @@ pub fn lookup(id: &str) -> Option<PropDef> {
         "C14" => c14::def(),
         "C15" => c15::def(),
         "C16" => c16::def(),
+        "C17" => c17::def(),
+        "C18" => c18::def(),
+        "C19" => c19::def(),
         "C20" => c20::def(),
         _ => return None,
     })
